@@ -38,6 +38,16 @@ class SemModel(Model):
         self.own = [S.declare(f"{name}.own.{p}", W, 0) for p in range(nprocs)]
         self.hooks = {}
         S.declare("overflow", "bool", False)
+        # threads (tids) whose *blocking* acquire of this semaphore may be interrupted once by an asynchronous
+        # exception (KeyboardInterrupt delivered to the main thread while it sleeps in sem_wait)
+        self.interruptible = set()
+        self._S = S
+
+    def allow_interrupt(self, tid):
+        if not self.interruptible:
+            self.METHODS = dict(self.METHODS, acquire=["KeyboardInterrupt"])
+            self._S.declare(f"{self.name}.intr", "bool", False)
+        self.interruptible.add(tid)
 
     def result_type(self, method):
         return {"acquire": "bool", "_is_mine": "bool", "_count": "int", "_get_value": "int",
@@ -80,6 +90,12 @@ class SemModel(Model):
                 blocked = v == 0
             if not block:
                 outs.append(Outcome(blocked, self.hooked("acquire", "wouldblock", t, S, {}), False, None, "wouldblock"))
+            if block and t.tid in self.interruptible:
+                outs.append(Outcome(z3.And(blocked, z3.Not(S[f"{self.name}.intr"])),
+                                    self.hooked("acquire", "interrupt", t, S, {f"{self.name}.intr": z3.BoolVal(True)}),
+                                    None, "KeyboardInterrupt", "interrupt"))
+            if not block:
+                pass
             elif timeout is not None and timeout is not False:
                 # an expired timed wait still succeeds if the semaphore is available: the
                 # timeout outcome is only enabled while blocked. A z3 Boolean stands for
